@@ -346,26 +346,37 @@ def templates(tier: str):
 _VARS = ("gain", "scale", "t")
 
 
-def _p3(ia: int, ib: int, ix: int, have_x: bool, delete_first: bool, x: int, y: int, z: int):
+def _p3(ia: int, ib: int, ix: int, have_x: bool, delete_first: bool, x: int, y: int, z: int, ctxw: bool):
     from vt.engine import assume
 
     assume(0 <= ia < 3 and 0 <= ib < 3 and 0 <= ix < 3)
     ca, cb, cx = (next(k for k in range(3) if v == k) for v in (ia, ib, ix))
-    return _p3_body(_VARS[ca], _VARS[cb], _VARS[cx], True if have_x else False, True if delete_first else False, x, y, z)
+    return _p3_body(_VARS[ca], _VARS[cb], _VARS[cx], True if have_x else False, True if delete_first else False, x, y, z, True if ctxw else False)
 
 
-def _p3_wrap(ia, ib, ix, have_x, delete_first, x, y, z):
-    return _p3_body(_VARS[ia], _VARS[ib], _VARS[ix], have_x, delete_first, x, y, z)
+def _make_p3(param):
+    fdel, fctx, fia = param
+
+    def p3(ib: int, ix: int, have_x: bool, x: int, y: int, z: int):
+        return _p3(fia, ib, ix, have_x, fdel, x, y, z, fctx)
+
+    return p3
 
 
-def _p3_body(A, B, X, have_x, delete_first, x, y, z):
+def _p3_wrap(ia, ib, ix, have_x, delete_first, x, y, z, ctxw=False):
+    return _p3_body(_VARS[ia], _VARS[ib], _VARS[ix], have_x, delete_first, x, y, z, ctxw)
+
+
+def _p3_body(A, B, X, have_x, delete_first, x, y, z, ctxw=False):
     """two sweep nodes over the same element with (solver-picked) variable names A and B; a later node consumes X_values.
     Soundness: accepted + required keys supplied => no flow failure; truthfulness: the keys each sweep node is reported to
     create are the keys that appear when it runs."""
     from vt import lib
 
     lib.register()
-    sweep = lambda var, vals: {"processor": lib.OpAdd, "derive": {"parameter_sweep": {"variables": {var: {"values": list(vals)}}, "parameters": {"addend": var}, "collection": "IntColl"}}}
+    # the swept element is a plain operation or one that itself writes a declared context key ('last')
+    elem = lib.OpCtxP if ctxw else lib.OpAdd
+    sweep = lambda var, vals: {"processor": elem, "derive": {"parameter_sweep": {"variables": {var: {"values": list(vals)}}, "parameters": {"addend": var}, "collection": "IntColl"}}}
     nodes = [{"processor": lib.SrcD, "parameters": {}}, sweep(A, [x, y]), {"processor": lib.OpSum, "parameters": {}}]
     if delete_first:
         nodes.append({"processor": "delete:%s_values" % A})
@@ -407,7 +418,7 @@ def obligations(tier: str) -> List[Ob]:
     R = C01._replay_simple
     tdesc = "Templates: all length-1, 24 curated interactions, ALL length-2 sequences over 19 node forms" + ("; thorough adds ALL length-3 sequences and a seeded draw of 400 length-4/5." if big else ".")
     return [
-        Ob("C02.P3", lambda _p: _p3, R(_p3_wrap), budget=600, per_path=60, bound="two sweep nodes of one element with variable names picked from {gain, scale, t} (symbolic indices), optional delete of the first sweep's key, a rename consuming X_values (X symbolic), X_values supplied or not (flag); sweep values symbolic",
+        Ob("C02.P3", _make_p3, lambda p, a: R(_p3_wrap)(p, dict(a, delete_first=p[0], ctxw=p[1], ia=p[2])), params=[(d, c, i) for d in (False, True) for c in (False, True) for i in range(3)], budget=600, per_path=60, bound="two sweep nodes of one element with variable names picked from {gain, scale, t} (symbolic indices), optional delete of the first sweep's key, a rename consuming X_values (X symbolic), X_values supplied or not (flag), swept element plain or context-writing (flag); sweep values symbolic",
            targets=["semantiva/inspection/builder.py:build_pipeline_inspection", "semantiva/data_processors/parametric_sweep_factory.py:ParametricSweepFactory.create"], stubs=list(STUBS)),
         Ob("C02.U1", lambda _p: _u1, R(_u1), budget=60, bound="flags config?/created-earlier?/deleted?/default? and both values symbolic over int | None (a channel holding None still is that channel)", targets=["semantiva/pipeline/_param_resolution.py:inspect_origin", "semantiva/pipeline/_param_resolution.py:resolve_runtime_value"]),
         Ob("C02.U2", lambda _p: _u2, R(_u2), budget=240, bound="5 component kinds x symbolic 4-bit subset of candidate parameter names in the node config", targets=["semantiva/pipeline/_param_resolution.py:classify_unknown_config_params", "semantiva/inspection/builder.py:build_pipeline_inspection"]),
